@@ -331,3 +331,23 @@ Definition erase_directive (n : str) (d : tsdoc) : tsdoc := flat_map (erase_tsde
 Definition spec_server_schema (model_plugin : bool) (d : tsdoc) : tsdoc :=
   let d1 := erase_directive (s "nitrogql_ts_type") d in
   if model_plugin then erase_directive (s "model") d1 else d1.
+
+(** ** the value exported by the module written for serverGraphqlOutput: a line comment, then
+    [export const schema = T;] with [T] a template literal; the exported value is the value of [T] *)
+Definition module_prefix : str := s "// generated by nitrogql" ++ [10] ++ s "export const schema = ".
+Fixpoint strip_prefix (p x : str) : option str :=
+  match p, x with
+  | [], _ => Some x
+  | a :: p', c :: x' => if a =? c then strip_prefix p' x' else None
+  | _, [] => None
+  end.
+Definition module_value (text : str) : option str :=
+  match strip_prefix module_prefix text with
+  | Some r =>
+      match rev r with
+      | nl1 :: semi :: r' => if (nl1 =? 10) && (semi =? 59) then eval_template (rev r') else None
+      | _ => None
+      end
+  | None => None
+  end.
+
